@@ -22,6 +22,35 @@ func main() {
 		os.Exit(cmdCheck(os.Args[2:]))
 	case "list":
 		cmdList(os.Args[2:])
+	case "sweep":
+		P, err := vc.Load("/repo", "/verif/engine/externals")
+		if err != nil {
+			fmt.Fprintln(os.Stderr, err)
+			os.Exit(2)
+		}
+		res := P.Sweep(os.Args[2])
+		vc.DischargeAll(res, nil, vc.DischargeOpts{Tier: "quick", TimeoutS: 5, WorkDir: "/verif/work/sweep", Keep: false})
+		for _, r := range res {
+			nf := 0
+			var fails []string
+			for _, o := range r.Obligations {
+				if o.Failed() {
+					nf++
+					if len(fails) < 6 {
+						fails = append(fails, o.Name+" ["+o.Result.Status+"]")
+					}
+				}
+			}
+			fmt.Printf("%-70s obl=%3d fail=%3d unsup=%d\n", r.Func, len(r.Obligations), nf, len(r.Unsupported))
+			for _, u := range r.Unsupported {
+				fmt.Println("      UNSUP:", u)
+			}
+			for _, f := range fails {
+				fmt.Println("      FAIL:", f)
+			}
+		}
+	case "calltree":
+		cmdCallTree(os.Args[2])
 	case "ssa":
 		P, err := vc.Load("/repo", "/verif/engine/externals")
 		if err != nil {
@@ -150,4 +179,16 @@ func cmdCheck(args []string) int {
 	}
 	return P.Check(vc.CheckOpts{Property: *prop, Tier: *tier, Seed: seed, VerifDir: *verif, TimeoutS: *to, Keep: *keep,
 		CheckerCmd: "bin/lvc check -p " + *prop + " -tier " + *tier})
+}
+
+// calltree prints the in-package static call tree of a function (development aid).
+func cmdCallTree(root string) {
+	P, err := vc.Load("/repo", "/verif/engine/externals")
+	if err != nil {
+		fmt.Fprintln(os.Stderr, err)
+		os.Exit(2)
+	}
+	for _, l := range P.CallTree(root) {
+		fmt.Println(l)
+	}
 }
